@@ -125,6 +125,9 @@ def _warp_cases(tier):
                 out.append(dict(shape=shape, units=units, payload=payload, kind="shift"))
     for units in ("coordinate", "voxelcenter"):
         out.append(dict(shape=(3, 3), units=units, payload="scalar", kind="turn"))
+    for units in ("coordinate", "voxel", "voxelcenter"):
+        out.append(dict(shape=(3, 4), units=units, payload="scalar", kind="systems"))
+    out.append(dict(shape=(3, 4), units="coordinate", payload="vector", kind="systems"))
     out.append(dict(shape=(2, 2, 3), units="coordinate", payload="scalar", kind="shift"))
     out.append(dict(shape=(2, 2, 3), units="voxelcenter", payload="scalar", kind="shift"))
     return out
@@ -147,7 +150,7 @@ def c09_warp(ctx, shape, units, payload, kind):
     dim = len(shape)
     full = list(shape) + ([2] if payload == "vector" else [])
     arr = ctx.array("a", full)
-    h = [0.5, 0.25, 2.0][:dim] if kind == "shift" else [0.5, 0.5]      # quarter turns need isotropic voxels
+    h = [0.5, 0.25, 2.0][:dim] if kind != "turn" else [0.5, 0.5]      # quarter turns need isotropic voxels
     dims = [shape[k] * h[k] for k in range(dim)]
     img = darsia.Image(arr, space_dim=dim, scalar=payload == "scalar", dimensions=dims, origin=[1.0, 2.0, 3.0][:dim])
     cs = img.coordinatesystem
@@ -175,6 +178,39 @@ def c09_warp(ctx, shape, units, payload, kind):
             ctx.ensure(f"shift {sh}: output voxel v holds input voxel v - shift, zero outside", same(out, want))
             out2 = C.correct_array(arr)
             ctx.ensure(f"shift {sh}: second call through the warp cache gives the same", same(out2, want))
+        ctx.ensure("input array untouched", img.img is arr)
+    elif kind == "systems":
+        # source and destination coordinate systems differ (shape, origin, voxel size); identity map and whole-voxel shifts
+        variants = [((2, 5), [0.5, 0.25], [1.0 + 0.25, 2.0 + 0.5]),          # other shape, origin moved by one voxel up / right
+                    ((6, 8), [0.25, 0.125], [1.0, 2.0]),                     # twice as fine, same corner
+                    ((2, 2), [1.0, 0.5], [1.0 - 0.5, 2.0 - 0.5]),             # twice as coarse, shifted
+                    ((4, 3), [0.5, 0.25], [1.0 - 1.0, 2.0 + 1.0])]            # partly outside the source
+        for dshape, dh, dorg in variants:
+            dst_img = darsia.Image(np.zeros(dshape), space_dim=2, scalar=True, dimensions=[dshape[k] * dh[k] for k in range(2)], origin=list(dorg))
+            cd = dst_img.coordinatesystem
+            for sh in ((0, 0), (1, 0), (0, -1)):
+                if units == "coordinate":
+                    tr = [0.0, 0.0]
+                    for m, (ax, sg) in enumerate(SPEC[2]):
+                        tr[ax] = sg * sh[m] * h[m]
+                else:
+                    tr = [float(x) for x in sh]
+                T = _typed_affine(2, units, tr)
+                C = darsia.TransformationCorrection(cs, cd, T)
+                out = C.correct_array(arr)
+                want = np.zeros((*dshape, *arr.shape[2:]), dtype=object)
+                for v in np.ndindex(*dshape):
+                    ctr = np.array(v) + 0.5
+                    if units == "coordinate":
+                        p = np.array([float(x) for x in cd.coordinate(ctr)]) - np.array(tr)
+                        sv = [int(x) for x in cs.voxel(p)]
+                    elif units == "voxel":
+                        sv = [int(np.floor(ctr[k])) - int(sh[k]) for k in range(2)]
+                    else:
+                        sv = [int(np.floor(ctr[k] - sh[k])) for k in range(2)]
+                    if all(0 <= sv[k] < shape[k] for k in range(2)):
+                        want[v] = arr[tuple(sv)]
+                ctx.ensure(f"dst system {dshape}/{dh}/{dorg}, shift {sh}: every destination voxel holds the source voxel its centre is pulled back into (zero outside)", same(out, want))
         ctx.ensure("input array untouched", img.img is arr)
     else:
         # quarter turns about the image centre (square image)
